@@ -310,6 +310,7 @@ package bfe_http2
 //@   requires q != nil && len(q.s) > 0
 //@   requires typeis(q.s[0].write, "*writeData") ==> unbox(q.s[0].write, "*writeData") != nil
 //@   requires headIsData(q) ==> q.s[0].stream != nil && q.s[0].stream.flow.conn != embed(q.s[0].stream, "flow") && flowAvail(embed(q.s[0].stream, "flow")) >= 0
+//@   requires[a_stream_queue_not_the_control_queue] q != embed(ws, "zero")
 //@   modifies *
 //@   let fl := embed(old(q.s[0].stream), "flow")
 //@   let wd := unbox(old(q.s[0].write), "*writeData")
@@ -321,9 +322,13 @@ package bfe_http2
 //@   ensures[a_split_sends_the_first_bytes_and_keeps_the_rest_at_the_head_of_the_queue] old(headIsData(q)) && av > 0 && plen > min(int(av), int(old(ws.maxFrameSize))) ==> len(q.s) == old(len(q.s)) && q.s[0] == old(q.s[0]) && sameslice(unbox(result0.write, "*writeData").p, old(wd.p)[0:min(int(av), int(old(ws.maxFrameSize)))]) && sameslice(wd.p, old(wd.p)[min(int(av), int(old(ws.maxFrameSize))):plen]) && !unbox(result0.write, "*writeData").endStream && result0.stream == old(q.s[0].stream)
 //@   ensures[otherwise_the_head_message_itself_is_sent_and_leaves_the_queue] !(old(headIsData(q)) && (av == 0 || plen > min(int(av), int(old(ws.maxFrameSize))))) ==> result1 && result0 == old(q.s[0]) && len(q.s) == old(len(q.s)) - 1 && (forall i int :: 0 <= i && i < len(q.s) ==> q.s[i] == old(q.s[i+1]))
 //@   ensures[and_its_payload_is_the_one_that_was_queued] !(old(headIsData(q)) && (av == 0 || plen > min(int(av), int(old(ws.maxFrameSize))))) && typeis(old(q.s[0].write), "*writeData") ==> sameslice(wd.p, old(wd.p))
+//@   ensures[the_control_queue_is_not_touched] sameslice(ws.zero.s, old(ws.zero.s)) && (result1 ==> result0.stream == old(q.s[0].stream))
 
 //@ spec wfQ(q *writeQueue) bool := q != nil && len(q.s) > 0 && (typeis(q.s[0].write, "*writeData") ==> unbox(q.s[0].write, "*writeData") != nil) && (headIsData(q) ==> q.s[0].stream != nil && q.s[0].stream.flow.conn != embed(q.s[0].stream, "flow") && flowAvail(embed(q.s[0].stream, "flow")) >= 0)
 //@ spec wfSched(ws *writeScheduler) bool := ws.maxFrameSize > 0 && ws.maxFrameSize <= 16777215 && (forall id uint32 :: has(ws.sq, id) ==> wfQ(ws.sq[id]) && ws.sq[id] != embed(ws, "zero") && (headIsData(ws.sq[id]) ==> ws.sq[id].s[0].stream.id == id)) && (forall i int :: 0 <= i && i < len(ws.zero.s) ==> !typeis(ws.zero.s[i].write, "*writeData"))
+
+// control messages (no stream) wait in the control queue, stream messages in the stream queues
+//@ spec wfCtl(ws *writeScheduler) bool := (forall i int :: 0 <= i && i < len(ws.zero.s) ==> ws.zero.s[i].stream == nil) && (forall id uint32 :: has(ws.sq, id) ==> ws.sq[id] != nil && ws.sq[id] != embed(ws, "zero") && len(ws.sq[id].s) > 0 && ws.sq[id].s[0].stream != nil)
 
 //@ func (*writeScheduler).zeroCanSend
 //@   props C34
@@ -339,7 +344,11 @@ package bfe_http2
 //@   note the scheduler invariant (every stream queue is non-empty, is keyed by its stream's id, a DATA message at its head carries its stream, the control queue holds no DATA) is a precondition: its preservation by add/forgetStream is not proved
 //@   modifies *
 //@   ensures[a_data_frame_that_is_sent_fits_both_windows_and_the_frame_size] result1 && typeis(result0.write, "*writeData") && len(unbox(result0.write, "*writeData").p) > 0 ==> result0.stream != nil && len(unbox(result0.write, "*writeData").p) <= int(old(flowAvail(embed(result0.stream, "flow")))) && len(unbox(result0.write, "*writeData").p) <= int(old(ws.maxFrameSize))
+//@   ensures[control_frames_go_first] old(wfCtl(ws)) && old(len(ws.zero.s)) > 0 ==> result1 && result0.stream == nil && len(ws.zero.s) == old(len(ws.zero.s)) - 1
+//@   ensures[a_stream_frame_leaves_the_control_queue_alone] old(wfCtl(ws)) && old(len(ws.zero.s)) == 0 ==> len(ws.zero.s) == 0 && (result1 ==> result0.stream != nil)
+//@   loop 1 invariant[nothing_changed_so_far] (old(wfCtl(ws)) ==> wfCtl(ws)) && sameslice(ws.zero.s, old(ws.zero.s))
 //@   loop 1 invariant[every_queue_seen_so_far_starts_with_data_that_costs_flow_control] ws != nil && wfSched(ws) && len(ws.canSend) == 0 && (forall id uint32 :: visited(id) && has(ws.sq, id) ==> headIsData(ws.sq[id]))
+//@   loop 2 invariant[nothing_changed_so_far] (old(wfCtl(ws)) ==> wfCtl(ws)) && sameslice(ws.zero.s, old(ws.zero.s))
 //@   loop 2 invariant[every_queue_starts_with_data_that_costs_flow_control] ws != nil && wfSched(ws) && (forall id uint32 :: has(ws.sq, id) ==> headIsData(ws.sq[id]))
 //@   loop 2 invariant[sendable_queues_are_stream_queues] forall i int :: 0 <= i && i < len(ws.canSend) ==> (exists id uint32 :: has(ws.sq, id) && ws.canSend[i] == ws.sq[id])
 
@@ -350,3 +359,80 @@ package bfe_http2
 //@   modifies *
 //@   ensures[no_frame_of_an_ended_stream_stays_queued] !has(ws.sq, id)
 //@   ensures[other_streams_keep_their_queues] forall k uint32 :: k != id ==> has(ws.sq, k) == old(has(ws.sq, k)) && ws.sq[k] == old(ws.sq[k])
+
+// ---- C37: the count of queued control frames is exact, and the serve loop closes the connection beyond the limit ----
+
+//@ spec wfPool(ws *writeScheduler) bool := (forall id uint32 :: has(ws.sq, id) ==> ws.sq[id] != nil && ws.sq[id] != embed(ws, "zero")) && (forall i int :: 0 <= i && i < len(ws.queuePool) ==> ws.queuePool[i] != nil && ws.queuePool[i] != embed(ws, "zero"))
+
+//@ func (frameWriteMsg).isControl
+//@   props C37
+//@   nopanic
+//@   modifies nothing
+//@   ensures result0 == (wr.stream == nil)
+
+//@ func (*Server).maxQueuedControlFrames
+//@   props C37
+//@   nopanic
+//@   modifies nothing
+//@   ensures result0 == maxQueuedControlFrames
+
+//@ func (*writeScheduler).getEmptyQueue
+//@   props C37
+//@   nopanic
+//@   requires ws != nil && wfPool(ws)
+//@   modifies ws.queuePool
+//@   ensures[a_queue_that_is_not_the_control_queue] result0 != nil && result0 != embed(ws, "zero")
+
+//@ func (*writeScheduler).streamQueue
+//@   props C37
+//@   nopanic
+//@   requires ws != nil && wfPool(ws)
+//@   modifies *
+//@   ensures[a_stream_queue_never_the_control_queue] result0 != nil && result0 != embed(ws, "zero") && sameslice(ws.zero.s, old(ws.zero.s))
+
+//@ func (*writeScheduler).add
+//@   props C37
+//@   nopanic
+//@   requires ws != nil && wfPool(ws)
+//@   modifies *
+//@   ensures[a_message_without_a_stream_joins_the_control_queue] wm.stream == nil ==> len(ws.zero.s) == old(len(ws.zero.s)) + 1
+//@   ensures[a_stream_message_does_not] wm.stream != nil ==> len(ws.zero.s) == old(len(ws.zero.s))
+
+// the counter the serve loop compares with the limit is the length of the control queue
+//@ spec inv37(sc *serverConn) bool := sc.queuedControlFrames == len(sc.writeSched.zero.s)
+
+//@ func (*serverConn).startFrameWrite
+//@   props C37
+//@   requires sc != nil && inv37(sc)
+//@   frame Check pure
+//@   modifies *
+//@   ensures[the_count_stays_exact] inv37(sc)
+
+//@ func (*serverConn).scheduleFrameWrite
+//@   props C37
+//@   requires sc != nil && inv37(sc)
+//@   frame Check pure
+//@   frame take keeps sc.queuedControlFrames
+//@   assume[the_scheduler_invariant_holds_when_a_frame_is_taken] at "sc.writeSched.take()" :: wfSched(embed(sc, "writeSched")) && wfCtl(embed(sc, "writeSched")) && len(sc.writeSched.canSend) == 0
+//@   modifies *
+//@   ensures[the_count_stays_exact] inv37(sc)
+
+//@ func (*serverConn).writeFrame
+//@   props C37
+//@   requires sc != nil && inv37(sc) && wfPool(embed(sc, "writeSched"))
+//@   frame Check pure
+//@   frame add keeps sc.queuedControlFrames
+//@   note the write scheduler (writesched.go) is assumed never to write the connection's counter of queued control frames
+//@   modifies *
+//@   ensures[the_count_stays_exact] inv37(sc)
+
+//@ func (*serverConn).serve
+//@   props C37
+//@   requires sc != nil && sc.srv != nil
+//@   note the serve loop is a policy skeleton: channel receives deliver arbitrary events and every handler may change anything; what is proved is that no event is served while the count of queued control frames exceeds the limit
+//@   modifies *
+//@   assume[connection_state_is_consistent_when_the_first_settings_frame_is_queued] at "sc.writeFrame(frameWriteMsg{" :: inv37(sc) && wfPool(embed(sc, "writeSched"))
+//@   assume[connection_state_is_consistent_when_a_handler_frame_is_queued] at "sc.writeFrame(wm)" :: inv37(sc) && wfPool(embed(sc, "writeSched"))
+//@   assume[a_body_read_notice_names_a_stream_of_this_connection] at "sc.noteBodyRead(m.st, m.n)" :: m.st != nil && m.st.inflow.conn == embed(sc, "inflow") && 0 <= m.n && m.n < 2147483647
+//@   assume[the_iteration_counter_does_not_wrap] at "loopNum++" :: 0 <= loopNum && loopNum < 4611686018427387904
+//@   loop 1 invariant[beyond_the_limit_the_connection_is_closed_before_another_event_is_served] loopNum == 0 || sc.queuedControlFrames <= maxQueuedControlFrames
